@@ -609,6 +609,8 @@ fn replay_one(run: &mut Run, inp: &str) {
         Some("import") if p.len() >= 3 => {
             import_case(run, p[1], &unhex(p[2]), "replay");
         }
+        Some("nops") | Some("nfile") => crate::c16n::replay(run, inp),
+        Some("savepal") => crate::c16f::replay(run, inp),
         Some("stream") if p.len() >= 3 => crate::c16s::stream_replay(run, p[1], p[2]),
         Some("tnd") if p.len() >= 2 => crate::c16s::tnd_case(run, &unhex(p[1])),
         Some("filepal") if p.len() >= 3 => crate::c16s::filepal_case(run, p[1], &unhex(p[2])),
@@ -642,6 +644,12 @@ pub fn run(run: &mut Run, seed: u64, thorough: bool, replay: Option<&str>, corpu
         crate::c16s::tnd_cases(run, &mut r2, thorough);
         crate::c16s::filepal_cases(run, &mut r2, thorough);
         crate::c16s::helper_cases(run, &mut r2, thorough);
+    }
+    // ---- colours as stored (with names); palettes of whole files written from pictures with one and two fonts
+    {
+        let mut r3 = Rng::new(seed ^ 0x16_BEEF);
+        crate::c16n::named_cases(run, &mut r3, thorough);
+        crate::c16f::savepal_cases(run, &mut r3, thorough);
     }
 
     // ---- op sequences on palettes of 0..=300 colours
@@ -750,6 +758,31 @@ pub fn run(run: &mut Run, seed: u64, thorough: bool, replay: Option<&str>, corpu
                 spec.description.clear();
             }
             for f in FORMATS {
+                file_case(run, &spec, f);
+            }
+        }
+    }
+    // repeated colours are part of "the same SEQUENCE": neighbours that are equal, a run of three, the first and the last
+    // colour equal, a palette padded with black / white (every format must bring back every repetition)
+    {
+        let (a, b) = ((rng.next() as u8, rng.next() as u8, rng.next() as u8), (170, 85, 0));
+        let runs: Vec<Vec<(u8, u8, u8)>> = vec![
+            vec![a, a],
+            vec![a, b, b, a],
+            vec![b, a, a, a, b],
+            vec![a, b, a, b, b],
+            vec![(0, 0, 0), (0, 0, 0), a, (255, 255, 255), (255, 255, 255), (255, 255, 255)],
+            (0..16).map(|i| if i < 5 { (i as u8 * 40, 7, 9) } else { (0, 0, 0) }).collect(),
+        ];
+        for (k, cols) in runs.iter().enumerate() {
+            let spec = PalSpec {
+                title: if k % 2 == 0 { String::new() } else { "runs".into() },
+                author: String::new(),
+                description: if k % 3 == 0 { String::new() } else { "d".into() },
+                colors: cols.iter().map(|c| (*c, if k == 3 { Some("same".to_string()) } else { None })).collect(),
+            };
+            for f in FORMATS {
+                run.count("file/repeated-neighbours");
                 file_case(run, &spec, f);
             }
         }
